@@ -122,7 +122,7 @@ def generate():
         raise TranslationError("ParBuilder::track: shape not recognised")
     w("Definition wf_par_track_formula : list string := %s." %
       coq_list([coq_str(x) for x in (m1.group(1), m2.group(1), m3.group(1), m3.group(2))]))
-    assigns = re.findall(r"SubgraphType::(\w+)\s*=>\s*self\.(\w+)\s*=\s*(\w+)", body)
+    assigns = re.findall(r"SubgraphType::(\w+)\s*=>\s*self\.(\w+)\s*=\s*(\w+)\s*,", body)
     if len(assigns) != 2:
         raise TranslationError("ParBuilder::track: expected 2 assignments")
     w("Definition wf_par_track_assigns : list (string * string * string) := %s." %
